@@ -59,6 +59,9 @@ type scenario struct {
 	Contenders []contender
 	Bound      int
 	Hold       time.Duration
+	// Stall > 0 adds a timer that far in the future: choosing TICK while contenders are enabled then stalls all of them
+	// for that long in one deviation (a process descheduled / a slow backend for more than two heart-beat periods)
+	Stall time.Duration
 }
 
 type phase int
@@ -74,19 +77,24 @@ func (p phase) String() string { return [...]string{"idle", "acquiring", "holdin
 
 // world is the monitor state of one execution.
 type world struct {
-	x        *gosim.Exec
-	owner    int // owner of the present incarnation of the lock directory: -1 none, -2 the dead initial holder
-	inc      int // sequence number of the present incarnation
-	born     time.Time
-	sawInc   []int // incarnation each contender found in its way (Mkdir said "exists") in its current acquire attempt
-	lost     []bool // the contender's own incarnation was removed by somebody else
-	stale    []int  // IsStale evaluations of each contender since its Mkdir last said "exists"
-	outside  int   // removals outside the premise (victim stalled > 2 periods before its heart beat started)
-	phase    []phase
-	api      []string // API call each contender is in
-	ownGone  []bool   // this Unlock call has already removed a directory that was the caller's own
-	acquired []int
-	outcome  []string
+	x         *gosim.Exec
+	owner     int // owner of the present incarnation of the lock directory: -1 none, -2 the dead initial holder
+	inc       int // sequence number of the present incarnation
+	born      time.Time
+	sawInc    []int           // incarnation each contender found in its way (Mkdir said "exists") in its current acquire attempt
+	lost      []bool          // the contender's own incarnation was removed by somebody else
+	beat      time.Time       // newest sign of life of the present incarnation: its creation or its owner's latest heart-beat write
+	forfeited []bool          // the contender's lock was legitimately judged stale and removed in its present cycle (see afterOp)
+	lookAge   []time.Duration // age of that sign of life at the latest operation of the contender's staleness evaluations
+	judging   []bool          // the contender is inside a staleness evaluation (IsStale entered; no Unlock / Mkdir / removal since)
+	lastLook  []int           // incarnation present at the latest backend operation of the contender's staleness evaluations
+	stale     []int           // IsStale evaluations of each contender since its Mkdir last said "exists"
+	outside   int             // removals outside the premise (victim stalled > 2 periods before its heart beat started)
+	phase     []phase
+	api       []string // API call each contender is in
+	ownGone   []bool   // this Unlock call has already removed a directory that was the caller's own
+	acquired  []int
+	outcome   []string
 }
 
 func (w *world) site(c int) string {
@@ -102,8 +110,19 @@ func (w *world) site(c int) string {
 }
 
 func (w *world) afterOp(op *vfsx.Op) {
+	if c := op.Client; c >= 0 && c < len(w.judging) && w.judging[c] && (op.Path == lockDir || strings.HasPrefix(op.Path, lockDir+"/")) {
+		// an operation of a staleness evaluation (listing of the lock directory, stat of a heart-beat file or of the directory)
+		w.lastLook[c] = w.inc
+		w.lookAge[c] = time.Since(w.beat)
+	}
+	if op.Path == hbFile && op.Err == nil && op.N > 0 && op.Client == w.owner && (op.Kind == vfsx.KFWrite || op.Kind == vfsx.KFWriteString || op.Kind == vfsx.KFWriteAt) {
+		w.beat = time.Now() // the owner of the present incarnation wrote a heart beat
+	}
 	if op.Path != lockDir {
 		return
+	}
+	if op.Kind == vfsx.KMkdir || op.Kind == vfsx.KMkdirAll || op.Kind == vfsx.KRemove || op.Kind == vfsx.KRemoveAll {
+		w.judging[op.Client] = false
 	}
 	if op.Err != nil {
 		if op.Kind == vfsx.KMkdir {
@@ -117,6 +136,7 @@ func (w *world) afterOp(op *vfsx.Op) {
 		w.owner = op.Client
 		w.inc++
 		w.born = time.Now()
+		w.beat = w.born
 		if w.phase[op.Client] == pIdle {
 			// a directory created by an acquire call that the API already abandoned (timed out): nobody holds it
 			w.owner = -3
@@ -142,9 +162,19 @@ func (w *world) afterOp(op *vfsx.Op) {
 				// the remover judged *this very* incarnation stale (not an earlier one)
 				sig += ":judged=same-incarnation"
 			}
-			if judgedSame && w.phase[y] == pAcquiring && time.Since(w.born) > 100*time.Millisecond {
-				// outside the premise: the victim was stalled for more than two periods between creating
-				// the directory and starting its heart beat, so its heart beat was not "running"
+			if strings.HasPrefix(w.site(x), "Acquire") && !judgedSame && w.lastLook[x] == w.inc {
+				// the remover's first verdict was about an earlier incarnation, but the last operation of its latest
+				// staleness evaluation already met this incarnation: whatever it saw there (a missing heart-beat file, a
+				// fresh directory) is not evidence that this incarnation is stale
+				sig += ":last-look=this-incarnation"
+			}
+			if judgedSame && w.lastLook[x] == w.inc && w.lookAge[x] > 100*time.Millisecond {
+				// outside the premise ("as long as the holder's heartbeat keeps running"): the remover judged this very
+				// incarnation, and at the last operation of its staleness evaluation the incarnation's newest sign of life
+				// (its creation, or its owner's latest heart-beat write) was more than two periods old — the victim was
+				// stalled for that long before its first heart beat. The victim has forfeited the lock: what happens to
+				// it from here on is not held against anybody.
+				w.forfeited[y] = true
 				w.outside++
 			} else {
 				w.x.Violate(sig, "contender %d (in %s) removed the lock directory (incarnation %d) created by contender %d, which is %s", x, w.api[x], w.inc, y, w.phase[y])
@@ -162,8 +192,11 @@ func (w *world) afterOp(op *vfsx.Op) {
 func (w *world) acquiredBy(c int) {
 	w.phase[c] = pHolding
 	w.acquired[c]++
+	if w.forfeited[c] {
+		return
+	}
 	for o, p := range w.phase {
-		if o != c && p == pHolding {
+		if o != c && p == pHolding && !w.forfeited[o] {
 			w.x.Violate("two-holders:no-foreign-removal", "contenders %d and %d hold the lock at the same time", o, c)
 		}
 	}
@@ -192,12 +225,18 @@ func newBackend(x *gosim.Exec, kind string) afero.Fs {
 func body(sc scenario) func(x *gosim.Exec) {
 	return func(x *gosim.Exec) {
 		n := len(sc.Contenders)
-		w := &world{x: x, owner: -1, phase: make([]phase, n), api: make([]string, n), ownGone: make([]bool, n), acquired: make([]int, n), outcome: make([]string, n), sawInc: make([]int, n), lost: make([]bool, n), stale: make([]int, n)}
+		w := &world{x: x, owner: -1, phase: make([]phase, n), api: make([]string, n), ownGone: make([]bool, n), acquired: make([]int, n), outcome: make([]string, n), sawInc: make([]int, n), lost: make([]bool, n), stale: make([]int, n), judging: make([]bool, n), lastLook: make([]int, n), forfeited: make([]bool, n), lookAge: make([]time.Duration, n)}
 		verifrt.EventHook = func(name string) {
-			if name == "IsStale" {
-				if th := x.Current(); th != nil && th.Client >= 0 && th.Client < n {
-					w.stale[th.Client]++
-				}
+			th := x.Current()
+			if th == nil || th.Client < 0 || th.Client >= n {
+				return
+			}
+			switch name {
+			case "IsStale":
+				w.stale[th.Client]++
+				w.judging[th.Client] = true
+			case "Unlock":
+				w.judging[th.Client] = false
 			}
 		}
 		x.User = w
@@ -218,6 +257,9 @@ func body(sc scenario) func(x *gosim.Exec) {
 			_ = backend.Chtimes(lockDir, old, old)
 			w.owner = -2
 		}
+		if sc.Stall > 0 {
+			x.Go("stall", n, func() { time.Sleep(sc.Stall) })
+		}
 		hook := &gosim.FSHook{X: x, AfterOp: w.afterOp}
 		shared := vfsx.NewShared(hook)
 		for i, c := range sc.Contenders {
@@ -229,6 +271,7 @@ func body(sc scenario) func(x *gosim.Exec) {
 				for cycle := 0; cycle < c.Cycles; cycle++ {
 					w.phase[i] = pAcquiring
 					w.lost[i] = false
+					w.forfeited[i] = false
 					w.api[i] = "acquire:" + c.Kind.String()
 					var err error
 					switch c.Kind {
@@ -252,7 +295,7 @@ func body(sc scenario) func(x *gosim.Exec) {
 					w.outcome[i] += "A"
 					x.Note("c%d %s ACQUIRED", i, c.Kind)
 					w.acquiredBy(i)
-					time.Sleep(sc.Hold)                            // hold (virtual time)
+					time.Sleep(sc.Hold)                             // hold (virtual time)
 					x.Gate(i, fmt.Sprintf("c%d: begin release", i)) // a harness event the monitor reads: it is a scheduled step
 					w.phase[i] = pReleasing
 					w.api[i] = "Unlock"
@@ -291,7 +334,11 @@ func scenarios() []scenario {
 		if strings.Contains(name, "hold40") {
 			hold = 40 * time.Millisecond // longer than Unlock's maximal retry jitter (25 ms)
 		}
-		out = append(out, scenario{Name: name, Backend: backend, Init: init, Contenders: cs, Bound: bound, Hold: hold})
+		var stall time.Duration
+		if strings.Contains(name, "stall110") {
+			stall = 110 * time.Millisecond
+		}
+		out = append(out, scenario{Name: name, Backend: backend, Init: init, Contenders: cs, Bound: bound, Hold: hold, Stall: stall})
 	}
 	T := func(o bool) contender { return contender{aTry, o, 1} }
 	L := func(o bool) contender { return contender{aLock, o, 1} }
@@ -307,6 +354,7 @@ func scenarios() []scenario {
 	add("dead/Try-override+Try", "posixmem", "dead", 2, T(true), T(false))
 	add("dead-nofile/2xTry-override", "posixmem", "dead-nofile", 2, T(true), T(true))
 	add("dead/Lock-override+Lock-override P1", "posixmem", "dead", 1, L(true), L(true))
+	add("free/Try+Try-override stall110", "posixmem", "free", 2, T(false), T(true))
 	add("free/2xTry(mem)", "mem", "free", 2, T(false), T(false))
 	add("free/2xTry(os)", "os", "free", 2, T(false), T(false))
 	add("dead/Try-override+Try(os)", "os", "dead", 2, T(true), T(false))
@@ -327,6 +375,8 @@ func scenarios() []scenario {
 		add("dead/2xTry-override P3", "posixmem", "dead", 3, T(true), T(true))
 		add("free/Lock+Lock(mem)", "mem", "free", 2, L(false), L(false))
 		add("dead/2xTry-override(mem)", "mem", "dead", 2, T(true), T(true))
+		add("dead/2xTry-override stall110", "posixmem", "dead", 2, T(true), T(true))
+		add("free/Lock+Lock-override stall110", "posixmem", "free", 2, L(false), L(true))
 	}
 	if f := os.Getenv("VERIF_SCENARIO"); f != "" {
 		var sel []scenario
